@@ -85,6 +85,7 @@ def model_witness(ctx, model, h, extra):
              now0=ev(h.now0), entries=[dict(key=ev(e.key), val=ev(e.val), birth=ev(e.birth), hits=ev(e.hits), size=ev(e.size)) for e in h.pre],
              clock=[ev(t) for t in (ctx.sys_vars if cfg.flavour == 'A' else ctx.now_vars)],
              rand=[ev(e[2]) for e in ctx.events if e[0] == 'rand'],
+             phase_ms=(int(ev(ctx.sys_fracs[-1])) // 1000000 if getattr(ctx, 'sys_fracs', None) and isinstance(ev(ctx.sys_fracs[-1]), (int, float)) else 0),
              handle_delay=(ev(h.now0) - ev(h.t_constructed)) if getattr(h, 't_constructed', None) is not None and isinstance(ev(h.now0), (int, float)) and isinstance(ev(h.t_constructed), (int, float)) else 0)
     for k, v in extra.items(): w[k] = ev(v) if not isinstance(v, (str, list, dict)) else v
     return w
@@ -359,6 +360,7 @@ def oracle_insert(ctx, h, k, v, claims, pre_clock, with_memory=False):
             add('C01', 'after a store the entry holds the value just stored (last store wins)', simp(term_eq(me[0]['val'], v)))
             t_first = clock[pre_clock - 1] if pre_clock >= 1 else 0
             add('C06', 'a (re-)stored entry starts a fresh lifetime', simp(me[0]['birth'] >= (h.now0)))
+            if A: add('C06', 'a stored entry is never stamped later than the clock reads at the store', simp(me[0]['birth'] <= clock[-1]))
             if cfg.policy in COUNTING: add('C08', 'a (re-)stored entry starts with zero uses', simp(me[0]['hits'] == 0))
         add('C01', 'a store leaves every other surviving entry unchanged', b_and(*[_unchanged(h.pre[s['id']], s) for s in store if isinstance(s['id'], int) and s['id'] != newid]))
         if cfg.has_limit:
